@@ -139,6 +139,18 @@ impl Prop for C10 {
                 }
             }
         }
+        // digit counts as large as the argument itself: values of 40 to 900 digits rounded to the
+        // multiples of 10^k for k just below, at and above their own magnitude (where the result
+        // is the leading digit rounded, one unit of the next magnitude, or zero)
+        for d in [40i64, 100, 237, 238, 239, 240, 300, 600, 900] {
+            for m in ["1", "4.9", "5", "5.1", "7", "-4.9", "-5", "-7", "9.99"] {
+                let x = format!("{m}e{d}");
+                for n in [-(d - 1), -d, -(d + 1), -(d + 2), -(d + 7)] {
+                    sink(Case::with("digits", format!("round({x}, {n})"), serde_json::json!({"f": "round", "x": x, "n": n})));
+                }
+                sink(Case::with("unit", format!("round({x} m, {})", -(d + 1)), serde_json::json!({"f": "round", "x": x, "u": "m", "n": -(d + 1)})));
+            }
+        }
         // unit carried through
         for (x, u) in [("2.5", "km"), ("-2.5", "km"), ("7.25", "m/s"), ("-0.5", "decade"), ("1234.5", "m"), ("3.75", "kg*m/s^2"), ("2.5", "°C")] {
             for f in ["floor", "ceil", "round"] {
